@@ -106,3 +106,12 @@ reg('C16', engine='llsym',
     note='Trusted: clang IR, llsym semantics, CPython contracts in vf/pystubs.py. One step per operation from an '
          'arbitrary cdata (histories by induction). ffi.addressof/offsetof index forms not covered.',
     technique='symbolic execution of LLVM IR, SMT (z3 bit-vectors)')
+
+reg('C19', engine='llsym',
+    text='Bounded symbolic execution of the real minibuffer index/slice read and write paths, direct_from_buffer and '
+         'b_memmove against a bytearray model written in z3: every index/slice bound (any int or None), every '
+         'content, every buffer size up to the bound with an exact-size region so that any stray access is reported; '
+         'from_buffer length arithmetic for any exporter length/item size; memmove for every overlap.',
+    note='Trusted: clang IR, llsym semantics, CPython contracts (PySlice_Unpack/AdjustIndices, buffer export '
+         'counting) in vf/pystubs.py. Buffer size <= 3 (5) bytes; b_buffer_new size derivation not covered.',
+    technique='symbolic execution of LLVM IR, SMT (z3 bit-vectors)')
